@@ -249,9 +249,9 @@ def _chunk(groups, seed, textfile):
             got = "EXC %s: %s" % (type(ex).__name__, str(ex).splitlines()[:1])
         n += 1
         allowed = [(expected(rec, b, exprs, ch), [77 if rec["parts"][j - 1].get("s") == "samecall" else j for j in b["evals"]]) for b in g]
-        if rec["ctx"] == "qcomment":
-            # whether the '?' marker itself is kept is not fixed by the property
-            allowed += [(w.replace("<!--x", "<!--?x", 1), ev) for w, ev in allowed]
+        if rec["ctx"] == "qcomment" and not rec["copt"]:
+            # with comment interpolation switched off by option, '<!--?' is no marker: the comment is written as it stands
+            allowed = [(w.replace("<!--x", "<!--?x", 1), ev) for w, ev in allowed]
         if not any(got == w and calls == ev for w, ev in allowed):
             viol.append(("interpolation (%s, stack=%s, comment option=%s): source %r renders %r with evaluations %s; "
                          "the specification allows %s" % (rec["ctx"], rec["stack"], rec["copt"], src, got, calls, allowed[:2]),
